@@ -285,13 +285,16 @@ def c09_8(c: Ctx) -> None:
 def c09_6(c: Ctx) -> None:
     eh = c.unit(SVC, 'EventBus.execute_handler')
     rl = c.unit(SVC, 'EventBus._run_loop')
+    from .c06 import runloop_context_preparers
+
+    prep = runloop_context_preparers(c)  # a function run in the copied context the run-loop task is then started in: same as the start of the run loop
     n = 0
     for var in CTX_VARS:
         for w in [w for w in c.cg.all_writes(var) if w.target == var]:
             n += 1
             if w.unit.key == eh.key:
                 c.ok(w.where() + ' ' + w.unit.qualname, f'{var}.{w.how}(...) in execute_handler')
-            elif w.unit.key == rl.key and w.how == 'set' and isinstance(w.node, ast.Call) and len(w.node.args) == 1 and isinstance(w.node.args[0], ast.Constant) and w.node.args[0].value in (None, False):
+            elif (w.unit.key == rl.key or w.unit.key in prep) and w.how == 'set' and isinstance(w.node, ast.Call) and len(w.node.args) == 1 and isinstance(w.node.args[0], ast.Constant) and w.node.args[0].value in (None, False):
                 c.ok(w.where() + ' ' + w.unit.qualname, f'run loop resets {var} to {w.node.args[0].value}')
             else:
                 c.fail(w.unit, f'writes {var}: {U(w.node)[:70]}', f'handler context variable {var} is written outside execute_handler (in {w.unit.qualname}): attribution of dispatches can be crossed', node=w.node)
